@@ -7,7 +7,7 @@
     the free queue is duplicate-free and is exactly the set of inactive slots
     (released identifiers are reusable, none lost or duplicated); len() counts
     the stored rows; type-id lookup targets exist. *)
-From Brood Require Import Base World Multi BaseFacts Inv StepInv CloneEq SerdeL.
+From Brood Require Import Base World Multi BaseFacts Inv StepInv CloneEq SerdeL LenM LenFacts CloneFromW CloneFromWFacts.
 
 Theorem C13_init : forall n res, Inv (empty_world n res).
 Proof. exact empty_world_inv. Qed.
@@ -63,3 +63,38 @@ Example C13_example :
   | None => False
   end.
 Proof. vm_compute. auto. Qed.
+
+(** "At every moment": also in the state a CAUGHT panic leaves behind.  [World::clear] interrupted by a
+    panicking Drop in any archetype, [World::extend] interrupted before anything is stored: len() equals the
+    number of stored entities.  The two orderings are read off the source (findings F13 and F16, repaired). *)
+Theorem C13_len_after_interrupted_clear : forall ns len fault, len = total ns ->
+  let '(ns', len') := clear_len ns len fault in len' = total ns'.
+Proof. exact clear_len_consistent_src. Qed.
+Check (C13_len_after_interrupted_clear : forall ns len fault, len = total ns ->
+  let '(ns', len') := clear_len ns len fault in len' = total ns').
+Print Assumptions C13_len_after_interrupted_clear.
+
+Theorem C13_len_after_interrupted_extend : forall len n panics,
+  let '(stored, len') := extend_len len n panics in len' = len + stored.
+Proof. exact extend_len_consistent_src. Qed.
+Print Assumptions C13_len_after_interrupted_extend.
+
+Theorem C13_len_F13_F16_before_the_repair :
+  (let '(ns', len') := clear_len_gen false [3; 2; 1] 6 (Some 1) in len' = 6 /\ total ns' = 1) /\
+  extend_len_gen false 1 5 true = (0, 6).
+Proof. exact (conj clear_len_stale extend_len_stale). Qed.
+Print Assumptions C13_len_F13_F16_before_the_repair.
+
+(** The identifier index, at the level of identifiers and rows alone ([Model/CloneFromW.v]): every accepted
+    identifier points at a row holding it and every stored row is known to the allocator — preserved by a
+    removal, by a push and by a shape change, for every world, whatever Drop panics on the way. *)
+Theorem C13_index_after_remove : forall w i a r panics, WInv w -> nth_error (pw_slots w) i = Some (Some (a, r)) ->
+  WInv (pw_remove w i a r panics).
+Proof. exact remove_under_panic_keeps_WInv. Qed.
+Print Assumptions C13_index_after_remove.
+
+Theorem C13_index_after_shape_change : forall w i a r b panics, WInv w ->
+  nth_error (pw_slots w) i = Some (Some (a, r)) -> b < length (pw_archs w) ->
+  WInv (pw_entry_remove w i a r b panics).
+Proof. exact entry_remove_under_panic_keeps_WInv. Qed.
+Print Assumptions C13_index_after_shape_change.
